@@ -1,0 +1,38 @@
+//go:build verif
+
+// Package verifhook marks the file-system write boundaries of the goat commands for
+// verification builds (build tag verif). Without the tag every function is a no-op.
+package verifhook
+
+import (
+	"fmt"
+	"os"
+	"strconv"
+	"sync"
+)
+
+var (
+	mu sync.Mutex
+	n  int
+)
+
+// Boundary is called immediately before a file or directory is created, written or removed.
+// With GOAT_VERIF_WRITELOG set it appends "<n> <op> <path>" to that file; with
+// GOAT_VERIF_CRASH_AT=k the process exits with status 97 at the k-th boundary (1-based),
+// before the operation is performed.
+func Boundary(op string, path string) {
+	mu.Lock()
+	defer mu.Unlock()
+	n++
+	if lf := os.Getenv("GOAT_VERIF_WRITELOG"); lf != "" {
+		if f, err := os.OpenFile(lf, os.O_APPEND|os.O_CREATE|os.O_WRONLY, 0644); err == nil {
+			fmt.Fprintf(f, "%d %s %s\n", n, op, path)
+			f.Close()
+		}
+	}
+	if s := os.Getenv("GOAT_VERIF_CRASH_AT"); s != "" {
+		if k, err := strconv.Atoi(s); err == nil && k == n {
+			os.Exit(97)
+		}
+	}
+}
